@@ -72,8 +72,14 @@ def main():
             out.append(res)
             print("%-14s %-44s %s" % (res["outcome"].split(" ")[0], res["id"],
                   " ".join("%s:%d%s" % (k, v["exit"], "(drift)" if v["drift"] else "") for k, v in res["checks"].items())), flush=True)
-    path = os.path.join(ROOT, "selftest", "results.json" if not only else "results-partial.json")
-    json.dump(dict(tier=tier, results=out), open(path, "w"), indent=1)
+    # results.json always describes the current mutants.jsonl: a partial run (--only) replaces its entries only
+    path = os.path.join(ROOT, "selftest", "results.json")
+    allids = [json.loads(l)["id"] for l in open(os.path.join(ROOT, "selftest", "mutants.jsonl"))]
+    prev = {}
+    if only and os.path.exists(path):
+        prev = {r["id"]: r for r in json.load(open(path))["results"]}
+    prev.update({r["id"]: r for r in out})
+    json.dump(dict(tier=tier, results=[prev[i] for i in allids if i in prev]), open(path, "w"), indent=1)
     bad = [r for r in out if r["outcome"] not in ("DETECTED", "QUIET")]
     print("%d mutants, %d as expected" % (len(out), len(out) - len(bad)))
     sys.exit(1 if bad else 0)
